@@ -497,6 +497,79 @@ fn differential(ctx: &Ctx, bin: &Path, label: &'static str, t: &mut Tally, sampl
             crate::seqmc::engine::close_leaked_fds(&path_b);
         }
     }
+    // (g) a publication that lands INSIDE a call: "the same segment at the same moment" includes the moment at which
+    // each library looks at the segment within its call. While the k-th clock read of the call is in progress a
+    // complete publication lands (in both libraries' runs, by the same bytes): a library that reads its clocks and
+    // the segment in another order than the other one pairs its time stamps with another record
+    {
+        use std::os::unix::fs::FileExt;
+        let path = dir.join("seg-g");
+        let (real_ns, mono_ns) = (ts_ns(1_700_000_000, 5), ts_ns(5000, 0));
+        let rec_a = Rec { as_of_s: 4999, as_of_ns: 0, va_s: 6000, va_ns: 0, bound: 1_000_000, drift: 1000, reserved: 0, status: 1 };
+        let landing = [
+            Rec { as_of_s: 5000, as_of_ns: 4_000_000, va_s: 6001, va_ns: 0, bound: 2_000_000, drift: 1000, reserved: 0, status: 1 }, // stamped at the next tick of the coarse clock
+            Rec { as_of_s: 5000, as_of_ns: 0, va_s: 6001, va_ns: 0, bound: 3_000_000, drift: 1000, reserved: 0, status: 1 },
+            Rec { as_of_s: 4999, as_of_ns: 500_000_000, va_s: 6001, va_ns: 0, bound: 4_000_000, drift: 1000, reserved: 0, status: 2 },
+        ];
+        for (li, rec_b) in landing.iter().enumerate() {
+            for k in 0..3u32 {
+                let rb = crate::gridmc::segfiles::record_bytes(rec_b);
+                let mut answers = vec![];
+                for who in ["c", "rust"] {
+                    let _ = std::fs::remove_file(&path);
+                    let mut w = ShmWriter::new(&path).map_err(|e| e.to_string())?;
+                    w.write(&rec_a.to_ceb());
+                    let ans = if who == "c" {
+                        if c.ask(&format!("P 5 {}", path.display()))? != "open ok" {
+                            return Err("part (g) set-up: clockbound_open failed".into());
+                        }
+                        let _ = c.ask(&format!("Q 5 {} {} {} {}", real_ns.div_euclid(S), real_ns.rem_euclid(S), mono_ns.div_euclid(S), mono_ns.rem_euclid(S)))?;
+                        let hex: String = rb.iter().map(|b| format!("{b:02x}")).collect();
+                        let a = c.ask(&format!("K 5 {} {k} {} {} {} {} {hex}", path.display(), real_ns.div_euclid(S), real_ns.rem_euclid(S), mono_ns.div_euclid(S), mono_ns.rem_euclid(S)))?;
+                        let _ = c.ask("R 5")?;
+                        c_core(&a)
+                    } else {
+                        let mut rust = ClockBoundClient::new_with_path(path.to_str().unwrap()).map_err(|e| format!("{:?}", e.kind))?;
+                        vclock::arm(VClock { real_ns, mono_ns, auto_advance_ns: 0, fail_errno: 0, fail_clock: -1 });
+                        let _ = rust.now();
+                        let file = std::fs::OpenOptions::new().read(true).write(true).open(&path).map_err(|e| e.to_string())?;
+                        let rb2 = rb.clone();
+                        vclock::at_read(k, Box::new(move || {
+                            let mut g = [0u8; 2];
+                            if file.read_exact_at(&mut g, 14).is_ok() {
+                                let gen = u16::from_ne_bytes(g);
+                                let _ = file.write_all_at(&gen.wrapping_add(1).to_ne_bytes(), 14);
+                                let _ = file.write_all_at(&rb2, 16);
+                                let even = if gen.wrapping_add(2) == 0 { 2 } else { gen.wrapping_add(2) };
+                                let _ = file.write_all_at(&even.to_ne_bytes(), 14);
+                            }
+                        }));
+                        let rr = rust.now();
+                        vclock::disarm();
+                        match rr {
+                            Ok(nw) => {
+                                let e = nw.earliest.as_ref();
+                                let l = nw.latest.as_ref();
+                                let st = match status_num(nw.clock_status) { 0 => &abi["sta_unknown"], 1 => &abi["sta_sync"], _ => &abi["sta_free"] };
+                                format!("now ok {} {} {} {} {}", e.tv_sec, e.tv_nsec, l.tv_sec, l.tv_nsec, st)
+                            }
+                            Err(e) => render_err("now", client_err(e), &abi),
+                        }
+                    };
+                    answers.push(ans);
+                    drop(w);
+                    crate::seqmc::engine::close_leaked_fds(&path);
+                }
+                n += 1;
+                t.nontrivial += 1;
+                *t.classes.entry(format!("publication inside the call: {}", answers[1].split(' ').take(2).collect::<Vec<_>>().join(" "))).or_insert(0) += 1;
+                if answers[0] != answers[1] {
+                    t.add("C17:c-differs-from-rust:publication-inside-the-call", format!("both libraries hold record A; a publication of record B (as-of {}.{:09}, bound {}) lands while the call's clock read number {k} is in progress: clockbound_now says '{}', the Rust client says '{}' - the two libraries do not look at the segment at the same point of the call", rec_b.as_of_s, rec_b.as_of_ns, rec_b.bound, answers[0], answers[1]),
+                        json!({"check": "C17", "part": "publication inside the call", "library": label, "landing_record": li, "during_clock_read": k, "c": answers[0], "rust": answers[1]}));
+                }
+            }
+        }
+    }
     // (f) two contexts, two segments that fail differently (as-of in the future; a drift of 1e9 ppb): what the call
     // on the first context returned must still describe the first context after the second one has been called
     {
